@@ -8,7 +8,7 @@ from logcases import eval_log_cases
 def run(pid, tier, seed, replay):
     ctx = Ctx(pid, tier, seed)
     ctx.coq_cone("Properties/C08.v")
-    env = {"VERIF_PROFILE": "c08", "VERIF_N": 250 if tier == "quick" else 4000}
+    env = {"VERIF_PROFILE": "c08", "VERIF_N": 170 if tier == "quick" else 4000}
     if replay:
         rp = json.load(open(replay))
         cf = os.path.join(ctx.work, "replay_cases.jsonl")
